@@ -25,7 +25,54 @@ func init() {
 		c22R2(c)
 		c22R3(c)
 		c22R4(c)
+		c22R5(c)
 	})
+}
+
+// c22R5: every message decoded from a container owns its body. Either
+// Message.Decode gives each call a fresh Body (what it stores to m.Body does
+// not derive from the receiver's previous Body), or the container loop gives
+// each element a fresh Message (the variable decoded into is allocated inside
+// the loop). Both at once failing makes all elements share one backing array:
+// a later, shorter body overwrites the earlier ones (and C23: a result is
+// delivered to the wrong request).
+func c22R5(c *engine.Ctx) { c22R5As(c, "C22.R5") }
+
+func c22R5As(c *engine.Ctx, rule string) {
+	md := c.MustFunc(rule, "proto", "Message.Decode")
+	cd := c.MustFunc(rule, "proto", "MessageContainer.Decode")
+	if md == nil || cd == nil {
+		return
+	}
+	reuse := false
+	stores := 0
+	for _, st := range fieldStores(md, "p:m.Body") {
+		stores++
+		engine.WalkBack(st.Val, func(v ssa.Value) bool {
+			if ld, ok := v.(*ssa.UnOp); ok && ld.Op == token.MUL && engine.Describe(ld) == "p:m.Body" {
+				reuse = true
+			}
+			return true
+		})
+	}
+	hoisted, calls := false, 0
+	for _, call := range engine.Calls(cd) {
+		if call.Common().StaticCallee() != md {
+			continue
+		}
+		calls++
+		recv := engine.Unwrap(engine.Args(call.Common())[0])
+		al, isA := recv.(*ssa.Alloc)
+		if !isA {
+			hoisted = true // decoded into something that outlives the iteration
+			continue
+		}
+		if engine.InCycle(call) && !engine.InCycle(al) {
+			hoisted = true
+		}
+	}
+	c.Check(stores > 0 && calls > 0 && !(reuse && hoisted), rule, "MessageContainer.Decode/each-message-owns-its-body", cd.Pos(), "Message.Decode reuses the receiver's Body (%v) and the container loop decodes every element into one Message variable (%v): all decoded messages would share one backing array", reuse, hoisted)
+	c.Floor(rule, 1, calls)
 }
 
 func c22R2(c *engine.Ctx) {
